@@ -4,9 +4,9 @@ namespace Pedal.Timeout
 
 set_option maxHeartbeats 1000000 in
 theorem inv_stepG (s : St) (h : Inv s) : Inv (stepG fixed s) := by
-  obtain ⟨hl, hstk, hpend, htimed, hexit, hcap, hfb, hexc, hnext, hid1, hid2, hctx, hraw, hout1, hout2, hret, hdepth, hbefore, hesc⟩ := h
-  rcases s with ⟨gpc, tpc, claim, pending, tExit, timedOut, patches, stdouts, sysStdout, buf1, buf2, real, raw, out1, out2, ctxs, id1, id2, nextId, exc, feedback, excAtReturn, depthAtReturn, excBeforeNext, e2Escaped⟩
-  simp only at hl hstk hpend htimed hexit hcap hfb hexc hnext hid1 hid2 hctx hraw hout1 hout2 hret hdepth hbefore hesc
+  obtain ⟨hl, hstk, hpend, htimed, hexit, hcap, hfb, hexc, hnext, hid1, hid2, hctx, hraw, hout1, hout2, hret, hdepth, hbefore, hesc, hesc1⟩ := h
+  rcases s with ⟨gpc, tpc, claim, pending, tExit, timedOut, patches, stdouts, sysStdout, buf1, buf2, real, raw, out1, out2, ctxs, id1, id2, nextId, exc, feedback, excAtReturn, depthAtReturn, excBeforeNext, e2Escaped, e1Escaped⟩
+  simp only at hl hstk hpend htimed hexit hcap hfb hexc hnext hid1 hid2 hctx hraw hout1 hout2 hret hdepth hbefore hesc hesc1
   cases gpc <;> rcases claim with _ | (_ | _) <;> cases tpc <;>
     simp [legal, GPc.rank, TPc.rank] at hl <;>
     (simp only [expStacks, Prod.mk.injEq] at hstk
